@@ -274,7 +274,15 @@ def shortcut(ctx, facts, cfg):
             cm = [cmp_atom(c, p) for c, p in atoms]
             cm = [c for c in cm if c]
             oc, orc = ('field', SELF, 'original_count'), ('field', SELF, 'original_received_count')
-            if any(c[0] == 'eq' and {c[1], c[2]} == {oc, orc} for c in cm):
+            def same_count(c):
+                # `a == b`, also written `a - b == 0` (`let missing = self.original_count - self.original_received_count;`)
+                if c[0] != 'eq':
+                    return False
+                d_ = c05.lin(('bin', 'Sub', c[1], c[2]))
+                w_ = c05.lin(('bin', 'Sub', oc, orc))
+                n_ = c05.lin(('bin', 'Sub', orc, oc))
+                return d_ in (w_, n_)
+            if any(same_count(c) for c in cm):
                 found = True
                 ctx.ok(R, 'decode_begin:None-iff-all-originals@%s' % cfg, {'conditions': [('' if p else 'not ') + hshow(c) for c, p in atoms]})
             else:
